@@ -6,6 +6,9 @@ def indent(level):
 
 
 def ensure_select_keyword_order(select, operation):
+    if not hasattr(select, 'from_table'):
+        # e.g. a parenthesised UNION followed by a SELECT clause
+        raise ParsingException(f"{operation} can not be applied to {select.__class__.__name__}")
     op_to_attr = {
         'FROM': select.from_table,
         'WHERE': select.where,
